@@ -151,10 +151,15 @@ class BaseExtractor:
                 alias = None
                 if len(all_segments) > 1 and all_segments[1].type == "alias_expression":
                     all_segments = list_child_segments(all_segments[1])
+                    first = all_segments[0]
+                    # the alias follows the optional AS; without AS it comes first (a column list may follow it)
+                    has_as = first.type == "alias_operator" or (
+                        first.type == "keyword" and first.raw_upper == "AS"
+                    )
                     alias = str(
                         all_segments[1].raw
-                        if len(all_segments) > 1
-                        else all_segments[0].raw
+                        if has_as and len(all_segments) > 1
+                        else first.raw
                     )
                 if "." not in table_identifier.raw:
                     cte_dict = {s.alias: s for s in holder.cte}
